@@ -73,7 +73,11 @@ SliceTab ==
 Groups ==
     "quick" :> {"coverS", "sumS", "sum3S", "negS", "shortS", "maddS", "mulS", "opsS", "moS", "deadS", "ratesS",
                 "divS", "localS"} @@
-    "thorough" :> {"sum3", "ring2", "ring3", "neg3", "madd2", "div2", "rates2", "ops1", "mo2", "dead2", "local2"}
+    "l2S" :> {"coverS", "shortS"} @@
+    "thorough" :> {"coverS", "sumS", "sum3S", "negS", "shortS", "maddS", "mulS", "opsS", "moS", "deadS", "ratesS",
+                   "divS", "localS", "ops1", "dead2", "local2", "div2", "ring2"} @@
+    \* too big to enumerate within the budget: sampled with random walks (RSpec)
+    "sampled" :> {"sum3", "ring3", "neg3", "madd2", "rates2", "mo2", "ring2", "div2", "dead2", "local2", "ops1"}
 SliceNames == IF IOEnv.VERIF_SLICE \in DOMAIN Groups THEN Groups[IOEnv.VERIF_SLICE] ELSE {IOEnv.VERIF_SLICE}
 
 VARIABLES sl, prog, done
